@@ -170,7 +170,7 @@ func diffBytes(got, want []byte) string {
 func payload(s *simrt.Sim) (e *entry, orig, want reflect.Value, ref *frag) {
 	for {
 		e = zoo[s.Choose(len(zoo))]
-		if !e.decodeBroken {
+		if !e.decodeBroken && !e.allocProne {
 			break
 		}
 	}
